@@ -94,6 +94,7 @@ def run(idx, rep, tier):
     core = Resolver(idx, frozenset(idx.core_modules()))
     check_inverse_rules(idx, rep, core, "pinv", pseudo=True)
     check_auto(idx, core, rep, "pinv", 1)
+    zero_masks(idx, rep, core)
     rep.floor("pairing", 3)
     rep.floor("sigma-sign", 4)
     rep.floor("gram-operator", 2)
@@ -346,3 +347,52 @@ def gram_side(idx, rep, rule_name="gram-side"):
                             "than the other dimension it is singular, a selection from the bottom of its spectrum yields zero singular values and the back-substituted "
                             "factor wrapped in Unitary is not orthonormal", detail="unconditional", locs=loc)
     return n
+
+
+def zero_masks(idx, rep, core):
+    """A pseudo-inverse rule that inverts only the entries it does not call zero decides "zero" on the MAGNITUDE of the entry.  A mask
+    built by an ordering comparison on the raw payload (`d > cutoff`) calls every negative entry -- and, under numpy's lexicographic
+    order, every complex entry with a non-positive real part -- zero: pinv(diag(-2)) would be 0 instead of -1/2."""
+    res = core  # a Resolver over the core configuration
+    for rule in res.rules_of("pinv"):
+        fi = rule.func
+        a = rule.params[0][0]
+
+        def raw_payload(e, depth=0):
+            """True: the (signed) payload itself; False: passed through abs / a magnitude; None: something else"""
+            if depth > 6:
+                return None
+            if isinstance(e, ast.Name):
+                v = df.resolve_value(fi.node, e)
+                return None if v is e or v is None else raw_payload(v, depth + 1)
+            if isinstance(e, ast.Attribute) and isinstance(e.value, ast.Name) and e.value.id == a:
+                return True
+            if isinstance(e, ast.Attribute) and e.attr == "real":
+                return raw_payload(e.value, depth + 1)
+            if isinstance(e, ast.Call):
+                nm = df.is_xnp_call(e) or (e.func.id if isinstance(e.func, ast.Name) else None)
+                if nm in ("abs", "absolute", "norm") and e.args:
+                    return False if raw_payload(e.args[0], depth + 1) is not None else None
+            if isinstance(e, ast.BinOp) and isinstance(e.op, ast.Mult):
+                # d * conj(d), d ** 2 style magnitudes are not interpreted
+                return None
+            return None
+        n = 0
+        for c in df.calls(fi.node):
+            if df.is_xnp_call(c) != "where" or len(c.args) != 3:
+                continue
+            m = c.args[0]
+            m = df.resolve_value(fi.node, m) if isinstance(m, ast.Name) else m
+            if not isinstance(m, ast.Compare) or len(m.ops) != 1:
+                continue
+            sides = [raw_payload(m.left), raw_payload(m.comparators[0])]
+            if all(x is None for x in sides):
+                continue
+            n += 1
+            ordering = isinstance(m.ops[0], (ast.Gt, ast.GtE, ast.Lt, ast.LtE))
+            raw = any(x is True for x in sides)
+            bad = ordering and raw
+            rep.decide(not bad, "zero-mask", f"{rule.role}:mask#{n}",
+                       f"`{ast.unparse(m)}` selects the entries to invert " + ("by their magnitude (or by inequality with zero)" if not bad else
+                       f"by an ordering test on the signed payload `{a}.{ast.unparse(m.left if sides[0] else m.comparators[0]).split('.')[-1]}`: negative entries (and complex ones with a non-positive real part) are called zero and left un-inverted"),
+                       detail="" if not bad else "signed", locs=[idx.loc(fi.module, c)])
